@@ -8,8 +8,8 @@
 (*         rejected nothing else is observable (k = 0 stands for "unknown")     *)
 (*   ret   what the call returned                                               *)
 (* The model is restarted for every line; the unobservable inclusion count of a *)
-(* draw that was not kept is taken to be 2 (the smallest the coin can reject),  *)
-(* or 0 (in no PHS) when there is a single PHS and hence no coin.               *)
+(* draw that was not kept is taken to be 2 (the smallest the coin can reject).  *)
+(* Rounding = TRUE: a kept draw observed in no PHS is what the code allows.     *)
 (* A line that is no behaviour of the model stops the validation there: that is *)
 (* drift of the transcription, not a verdict on the property.                   *)
 EXTENDS InformedLoops, TraceIO
@@ -32,7 +32,7 @@ Restart(cf) ==
 Matches(o, a) ==
     /\ o.keep = (a[2] = 1)
     /\ IF o.keep THEN o.k = a[1] /\ o.inb = (a[3] = 1) /\ o.cls = ClsName(a[4])
-       ELSE o.k = (IF Len(alive) = 1 THEN 0 ELSE 2)
+       ELSE o.k = 2
 
 TInit == l = 1 /\ NLog >= 1 /\ InitWith(CfgOf(Log[1]))
 TStepO == /\ l <= NLog /\ Q <= Len(Ev.att)
@@ -47,5 +47,5 @@ TNext == TStepO \/ TStepP \/ TAdvance
 TSpec == TInit /\ [][TNext]_tvars
 NotAccepted == l <= NLog
 (* the invariants of the model hold on what was observed, too *)
-Observed == SuccessSound /\ Bounded /\ FalseOnlyExhausted /\ PruneRule
+Observed == Bounded /\ FalseOnlyExhausted /\ PruneRule
 ==============================================================================
